@@ -104,6 +104,44 @@ Theorem C07_goi_twice : forall k terms nl s t1 t2 lvl ch f1 f2 s1 s2 r1 r2, CInv
 Proof. exact goi_twice. Qed.
 Print Assumptions C07_goi_twice.
 
+(* the returned handle denotes "the child selected at level lvl", the children read in the
+   state BEFORE the action: the result is a function of the caller's arguments only, found
+   or created, whatever the other threads do (BDD/MTBDD/TDD; BCDD; ZBDD) *)
+Theorem C07_goi_sem_kary : forall k terms nl s tid lvl ch fr s' id c, CInv k terms nl s ->
+  terms_unique_b terms = true -> k <> KBcdd -> k <> KZbdd ->
+  step k terms nl s (AGoi tid lvl ch fr) = Some (s', Some id) ->
+  sem_edge (to_snap k terms nl s') (mkEdge (RN id) false) c =
+  match nth_error ch (c lvl) with
+  | Some x => sem_edge (to_snap k terms nl s) x c
+  | None => None
+  end.
+Proof. exact goi_sem_kary. Qed.
+Print Assumptions C07_goi_sem_kary.
+
+Theorem C07_goi_sem_bcdd : forall k terms nl s tid lvl ch fr s' id c, CInv k terms nl s ->
+  terms_unique_b terms = true -> k = KBcdd ->
+  step k terms nl s (AGoi tid lvl ch fr) = Some (s', Some id) ->
+  sem_edge (to_snap k terms nl s') (mkEdge (RN id) false) c =
+  match nth_error ch (c lvl) with
+  | Some x => sem_edge (to_snap k terms nl s) x c
+  | None => None
+  end.
+Proof. exact goi_sem_bcdd. Qed.
+Print Assumptions C07_goi_sem_bcdd.
+
+Theorem C07_goi_sem_zbdd : forall k terms nl s tid lvl ch fr s' id c, CInv k terms nl s ->
+  terms_unique_b terms = true ->
+  step k terms nl s (AGoi tid lvl ch fr) = Some (s', Some id) ->
+  semz (to_snap k terms nl s') (S nl) 0 (RN id) c =
+  if all_lo c 0 lvl then
+    match nth_error ch (c lvl) with
+    | Some x => semz (to_snap k terms nl s) (S nl) (S lvl) (eref x) c
+    | None => None
+    end
+  else Some false.
+Proof. exact goi_sem_zbdd. Qed.
+Print Assumptions C07_goi_sem_zbdd.
+
 (* 6. frame: no action removes or alters a node that is owned or has a parent *)
 Theorem C07_step_frame : forall k terms nl s a s' r id nd, CInv k terms nl s ->
   step k terms nl s a = Some (s', r) ->
